@@ -7,7 +7,7 @@ package main
 
 // what a receive loop hands to its workers: a datagram in a pool buffer, its source address, and
 // (happens-before through the channel) the template cache already loaded
-//@ chaninv ipfixUDPCh m: m.raddr != nil && len(m.body) <= 65535 && cap(m.body) >= opts.IPFIXUDPSize && opts != nil && opts.IPFIXUDPSize >= 0 && wellFormed(mCache)
+//@ chaninv ipfixUDPCh m: m.raddr != nil && len(m.body) <= 65507 && len(m.body) <= opts.IPFIXUDPSize && cap(m.body) >= opts.IPFIXUDPSize && opts != nil && opts.IPFIXUDPSize >= 0 && wellFormed(mCache)
 //@ poolinv ipfixBuffer x: iskind(x, bytes) && typeid(x) == tyof([]byte) && len(anybytes(x)) == opts.IPFIXUDPSize && cap(anybytes(x)) >= opts.IPFIXUDPSize
 
 //@ func (*IPFIX).ipfixWorker
@@ -18,7 +18,7 @@ package main
 //@   loop 1
 //@     invariant opts != nil && opts == old(opts) && opts.IPFIXUDPSize >= 0 && buf != nil && i != nil && cap(msg.body) >= opts.IPFIXUDPSize
 
-//@ chaninv netflowV9UDPCh m: m.raddr != nil && len(m.body) <= 65535 && cap(m.body) >= opts.NetflowV9UDPSize && opts != nil && opts.NetflowV9UDPSize >= 0 && wellFormed9(mCacheNF9)
+//@ chaninv netflowV9UDPCh m: m.raddr != nil && len(m.body) <= 65507 && cap(m.body) >= opts.NetflowV9UDPSize && opts != nil && opts.NetflowV9UDPSize >= 0 && wellFormed9(mCacheNF9)
 //@ poolinv netflowV9Buffer x: iskind(x, bytes) && typeid(x) == tyof([]byte) && len(anybytes(x)) == opts.NetflowV9UDPSize && cap(anybytes(x)) >= opts.NetflowV9UDPSize
 
 //@ func (*NetflowV9).netflowV9Worker
@@ -29,7 +29,7 @@ package main
 //@   loop 1
 //@     invariant opts != nil && opts == old(opts) && opts.NetflowV9UDPSize >= 0 && buf != nil && i != nil && cap(msg.body) >= opts.NetflowV9UDPSize
 
-//@ chaninv netflowV5UDPCh m: m.raddr != nil && len(m.body) <= 65535 && cap(m.body) >= opts.NetflowV5UDPSize && opts != nil && opts.NetflowV5UDPSize >= 0
+//@ chaninv netflowV5UDPCh m: m.raddr != nil && len(m.body) <= 65507 && cap(m.body) >= opts.NetflowV5UDPSize && opts != nil && opts.NetflowV5UDPSize >= 0
 //@ poolinv netflowV5Buffer x: iskind(x, bytes) && typeid(x) == tyof([]byte) && len(anybytes(x)) == opts.NetflowV5UDPSize && cap(anybytes(x)) >= opts.NetflowV5UDPSize
 
 //@ func (*NetflowV5).netflowV5Worker
@@ -40,7 +40,7 @@ package main
 //@   loop 1
 //@     invariant opts != nil && opts == old(opts) && opts.NetflowV5UDPSize >= 0 && buf != nil && i != nil && cap(msg.body) >= opts.NetflowV5UDPSize
 
-//@ chaninv sFlowUDPCh m: m.raddr != nil && len(m.body) <= 65535 && cap(m.body) >= opts.SFlowUDPSize && opts != nil && opts.SFlowUDPSize >= 0
+//@ chaninv sFlowUDPCh m: m.raddr != nil && len(m.body) <= 65507 && len(m.body) <= opts.SFlowUDPSize && cap(m.body) >= opts.SFlowUDPSize && opts != nil && opts.SFlowUDPSize >= 0
 //@ poolinv sFlowBuffer x: iskind(x, bytes) && typeid(x) == tyof([]byte) && len(anybytes(x)) == opts.SFlowUDPSize && cap(anybytes(x)) >= opts.SFlowUDPSize
 
 //@ func (*SFlow).sFlowWorker
@@ -54,14 +54,14 @@ package main
 // ---- receive loops: every datagram handed to the workers satisfies the channel invariant -------------
 
 //@ func (*IPFIX).run
-//@   requires opts != nil && opts.IPFIXUDPSize >= 0
+//@   requires opts != nil && opts.IPFIXUDPSize >= 0 && opts.IPFIXUDPSize <= 1048576
 //@   opt nonterminating
 //@   modifies i, mCache, ipfix.InfoModel
 //@   loop 1
-//@     invariant i != nil && opts != nil && opts == old(opts) && opts.IPFIXUDPSize >= 0 && conn != nil
+//@     invariant i != nil && opts != nil && opts == old(opts) && opts.IPFIXUDPSize >= 0 && opts.IPFIXUDPSize <= 1048576 && conn != nil
 //@     decreases i.workers - n
 //@   loop 2
-//@     invariant i != nil && opts != nil && opts == old(opts) && opts.IPFIXUDPSize >= 0 && conn != nil && wellFormed(mCache)
+//@     invariant i != nil && opts != nil && opts == old(opts) && opts.IPFIXUDPSize >= 0 && opts.IPFIXUDPSize <= 1048576 && conn != nil && wellFormed(mCache)
 
 //@ func (*NetflowV9).run
 //@   requires opts != nil && opts.NetflowV9UDPSize >= 0
@@ -84,11 +84,71 @@ package main
 //@     invariant i != nil && opts != nil && opts == old(opts) && opts.NetflowV5UDPSize >= 0 && conn != nil
 
 //@ func (*SFlow).run
-//@   requires opts != nil && opts.SFlowUDPSize >= 0
+//@   requires opts != nil && opts.SFlowUDPSize >= 0 && opts.SFlowUDPSize <= 1048576
 //@   opt nonterminating
 //@   modifies s
 //@   loop 1
-//@     invariant s != nil && opts != nil && opts == old(opts) && opts.SFlowUDPSize >= 0 && s.conn != nil
+//@     invariant s != nil && opts != nil && opts == old(opts) && opts.SFlowUDPSize >= 0 && opts.SFlowUDPSize <= 1048576 && s.conn != nil
 //@     decreases s.workers - i
 //@   loop 2
-//@     invariant s != nil && opts != nil && opts == old(opts) && opts.SFlowUDPSize >= 0 && s.conn != nil
+//@     invariant s != nil && opts != nil && opts == old(opts) && opts.SFlowUDPSize >= 0 && opts.SFlowUDPSize <= 1048576 && s.conn != nil
+
+
+// ---- mirroring (C16) ---------------------------------------------------------------------------------
+// every message handed to the mirror workers is a copy of a received datagram in a pool buffer
+//@ chanpred mirrorMsgs(IPFIXUDPMsg) m: m.raddr != nil && opts != nil && len(m.body) <= 65507 && len(m.body) <= opts.IPFIXUDPSize && cap(m.body) >= opts.IPFIXUDPSize
+//@ chanpred mirrorMsgsSF(SFUDPMsg) m: m.raddr != nil && opts != nil && len(m.body) <= 65507 && len(m.body) <= opts.SFlowUDPSize && cap(m.body) >= opts.SFlowUDPSize
+//@ globalinv mirrorMsgs(ipfixMCh) && mirrorMsgsSF(sFlowMCh)
+
+// the raw packet: IPv4 header (version 4, IHL 5, total length, TTL 64, protocol UDP, source = exporter,
+// destination = mirror target), UDP header (ports, length) and the payload, octet for octet
+//@ pred mirrored4(b []byte, src net.IP, dst net.IP, sport mathint, dport mathint, body []byte) = len(b) == 28 + len(body)
+//@     && b[0] == 69 && b[1] == 0 && b[2]*256 + b[3] == 28 + len(body) && b[6] == 0 && b[7] == 0 && b[8] == 64 && b[9] == 17
+//@     && (isV4(src) ==> b[12] == v4octet(src, 0) && b[13] == v4octet(src, 1) && b[14] == v4octet(src, 2) && b[15] == v4octet(src, 3))
+//@     && (isV4(dst) ==> b[16] == v4octet(dst, 0) && b[17] == v4octet(dst, 1) && b[18] == v4octet(dst, 2) && b[19] == v4octet(dst, 3))
+//@     && b[20]*256 + b[21] == sport && b[22]*256 + b[23] == dport % 65536 && b[24]*256 + b[25] == 8 + len(body)
+//@     && (forall k :: 0 <= k && k < len(body) ==> b[28 + k] == body[k])
+
+//@ func mirrorIPFIX
+//@   requires opts != nil && opts.IPFIXUDPSize >= 0 && opts.IPFIXUDPSize <= 1048576 && mirrorMsgs(ch)
+//@   opt nonterminating
+//@   opt allocbound 1048624   // the configured maximum datagram size plus headers (configuration, not a wire field)
+//@   callassert Send: ipv4 ==> mirrored4(arg0, msg.raddr.IP, dst, 55117, port, msg.body)
+//@   loop 1
+//@     invariant opts != nil && opts == old(opts) && opts.IPFIXUDPSize >= 0 && mirrorMsgs(ch) && len(packet) == opts.IPFIXUDPSize + 48 && len(udpHdr) == 8 && len(ipHdr) == ipHLen
+//@     invariant [v4kind] ipv4 ==> ipHLen == 20 && isboxed(ip, mirror.IPv4)
+//@     invariant [v4hdr] ipv4 ==> ipHdr[0] == 69 && ipHdr[1] == 0 && ipHdr[6] == 0 && ipHdr[7] == 0 && ipHdr[8] == 64 && ipHdr[9] == 17
+//@     invariant !ipv4 ==> ipHLen == 40 && isboxed(ip, mirror.IPv6)
+//@     invariant udpHdr[0]*256 + udpHdr[1] == 55117 && udpHdr[2]*256 + udpHdr[3] == port % 65536
+
+//@ func mirrorIPFIXDispatcher
+//@   requires opts != nil && opts.IPFIXUDPSize >= 0 && opts.IPFIXUDPSize <= 1048576 && mirrorMsgs(ch)
+//@   opt nonterminating
+//@   modifies ipfixMirrorEnabled
+//@   loop 1
+//@     invariant opts != nil && opts == old(opts) && opts.IPFIXUDPSize >= 0 && opts.IPFIXUDPSize <= 1048576 && mirrorMsgs(ch) && mirrorMsgs(ch4) && mirrorMsgs(ch6)
+//@     decreases opts.IPFIXMirrorWorkers - w
+//@   loop 2
+//@     invariant opts != nil && opts == old(opts) && mirrorMsgs(ch) && mirrorMsgs(ch4) && mirrorMsgs(ch6)
+
+//@ func mirrorSFlow
+//@   requires opts != nil && opts.SFlowUDPSize >= 0 && opts.SFlowUDPSize <= 1048576 && mirrorMsgsSF(ch)
+//@   opt nonterminating
+//@   opt allocbound 1048624   // the configured maximum datagram size plus headers (configuration, not a wire field)
+//@   callassert Send: ipv4 ==> mirrored4(arg0, msg.raddr.IP, dst, 55118, port, msg.body)
+//@   loop 1
+//@     invariant opts != nil && opts == old(opts) && opts.SFlowUDPSize >= 0 && mirrorMsgsSF(ch) && len(packet) == opts.SFlowUDPSize + 48 && len(udpHdr) == 8 && len(ipHdr) == ipHLen
+//@     invariant [v4kind] ipv4 ==> ipHLen == 20 && isboxed(ip, mirror.IPv4)
+//@     invariant [v4hdr] ipv4 ==> ipHdr[0] == 69 && ipHdr[1] == 0 && ipHdr[6] == 0 && ipHdr[7] == 0 && ipHdr[8] == 64 && ipHdr[9] == 17
+//@     invariant !ipv4 ==> ipHLen == 40 && isboxed(ip, mirror.IPv6)
+//@     invariant udpHdr[0]*256 + udpHdr[1] == 55118 && udpHdr[2]*256 + udpHdr[3] == port % 65536
+
+//@ func mirrorSFlowDispatcher
+//@   requires opts != nil && opts.SFlowUDPSize >= 0 && opts.SFlowUDPSize <= 1048576 && mirrorMsgsSF(ch)
+//@   opt nonterminating
+//@   modifies sFlowMirrorEnabled
+//@   loop 1
+//@     invariant opts != nil && opts == old(opts) && opts.SFlowUDPSize >= 0 && opts.SFlowUDPSize <= 1048576 && mirrorMsgsSF(ch) && mirrorMsgsSF(ch4) && mirrorMsgsSF(ch6)
+//@     decreases opts.SFlowMirrorWorkers - w
+//@   loop 2
+//@     invariant opts != nil && opts == old(opts) && mirrorMsgsSF(ch) && mirrorMsgsSF(ch4) && mirrorMsgsSF(ch6)
